@@ -46,6 +46,12 @@ def gen_project(rng, locales, inherits, list_default):
                 data[l].append([k, tagged(l, (k,)) if k != "k4" else tagged_tmpl(l, (k,))])
             elif r < 0.65:
                 data[l].append([k, {"k": "null"}])
+    # references: `$t(k)` where k is defined or null in the same file must read what the key k itself reads there
+    for k in keys[:3]:
+        for l in locales:
+            present = any(name == k for name, _ in data[l])
+            if present and (l == default or rng.random() < 0.8):
+                data[l].append(["r_" + k, {"k": "tmpl", "segs": [{"s": "text", "v": "via "}, {"s": "fk", "ns": None, "path": [k], "args": None}]}])
     for g, leaves in groups.items():
         for l in locales:
             r = rng.random()
@@ -135,6 +141,10 @@ def check(res, project, out, sig_extra=""):
                 except Exception as e:  # noqa
                     text = "<<%s>>" % e
             want = "⟨%s:%s⟩" % (eff, ".".join(path)) + (" X" if path == ("k4",) else "")
+            if path[0].startswith("r_"):
+                k = path[0][2:]
+                want = "via ⟨%s:%s⟩" % (model.effective_locale(project, None, eff, (k,)), k)
+                res.count("reference-to-%s-key" % ("own" if model.effective_locale(project, None, eff, (k,)) == eff else "inherited"))
             if read != eff or text != want:
                 res.violation("C03/wrong-fallback-locale" + sig_extra,
                               "inherits=%r default=%s key=%s locale=%s: value read from %r (text %r), expected from %r (text %r); chain=%r" % (
